@@ -31,6 +31,7 @@ structure Snap where
   allowed : List (Bytes × List String)      -- per key: the replies a get may give after recovery (C06)
   exact : List (Bytes × String)             -- per key: the reply required (C07: the value before the pass)
   label : String
+  durable : List (Bytes × Store.Pos × Nat × String) := []   -- the acknowledged writes whose record lies completely in the surviving bytes
 
 structure St where
   cfg : Cfg := {}
@@ -427,13 +428,17 @@ def run (lines : Array String) : IO Report := do
                   | none => pure ()
               | none => pure ()
             if !pretend && obs.startsWith "RANGE" then
-              let (b', stats) := Store.gcRun hash st.scfg b s e
+              -- a pass cancelled at a file boundary (CancelGC) has looked at the files [s, stopped): it is the pass over
+              -- that shorter range; cancelled before its first file it changes nothing
+              let stopped := ((obs.splitOn " ").findSome? fun w => if w.startsWith "stopped=" then (w.drop 8).toNat? else none).getD (e + 1)
+              let e := if stopped ≤ e then stopped - 1 else e
+              let (b', stats) := if stopped ≤ s then (b, ({} : Store.GcStats)) else Store.gcRun hash st.scfg b s e
               let m := s!"before={stats.numBefore} released={stats.numReleased} sizebefore={stats.sizeBefore} sizereleased={stats.sizeReleased}"
               if !(obs.endsWith m) then diffIf st.groups.isEmpty rep ln "model" s!"case={cid} gc stats: model={m} impl={obs.take 160}"
               -- model-internal tie: the concrete pass lays the records out as  before ++ kept ++ after
-              if (b'.log.map (·.2)) != StoreLemmas.gcAbstract hash b s e then
+              if stopped > s && (b'.log.map (·.2)) != StoreLemmas.gcAbstract hash b s e then
                 diffIf st.groups.isEmpty rep ln "model" s!"case={cid} gc-abstraction: concrete gcRun differs from the abstract pass (Lemmas/GCLog.gcAbstract)"
-              st := { st with buckets := st.buckets.set! bkt b', gcPending := some (bkt, s, e, st.lastFiles), gcPre := some (b, s, e), phase := "gc" }
+              st := { st with buckets := st.buckets.set! bkt b', gcPending := (if stopped ≤ s then none else some (bkt, s, e, st.lastFiles)), gcPre := some (b, s, e), phase := "gc" }
               caseNontrivial := true
         ok rep
     | ["files"] =>
@@ -556,7 +561,8 @@ def run (lines : Array String) : IO Report := do
                 diffIf st.groups.isEmpty rep ln "model" s!"case={cid} gc-interm-abstraction: the data files at ({" ".intercalate (opts.filter (fun o => !o.startsWith "files="))}) are none of the abstract intermediate states of the pass [{gs},{ge}]: {(",".intercalate observed).take 300}"
           | _, _ => pure ()
         let sn : Snap := { inGC := inGC, torn := b.tornAt cut, recovered := b.recover hash st.scfg cut present,
-                           allowed := allowed, exact := exact, label := " ".intercalate (opts.filter (fun o => !o.startsWith "files=")) }
+                           allowed := allowed, exact := exact, label := " ".intercalate (opts.filter (fun o => !o.startsWith "files=")),
+                           durable := st.writes.filter fun w => decide (w.2.1.off + w.2.2.1 ≤ cut w.2.1.chunk) }
         st := { st with snaps := (n.toNat!, sn) :: st.snaps }
         caseNontrivial := true
     | ["crash", n] =>
@@ -611,6 +617,24 @@ def run (lines : Array String) : IO Report := do
                     diff rep ln "oracle" s!"case={cid} key=C06/value-after-kill key {kh.take 40} reads {obs.take 60} after a kill at ({sn.label}); allowed: {(" | ".intercalate (al.map (fun x => (x.take 40).toString))).take 200}"
               | none => if obs ≠ "MISS" then diff rep ln "oracle" s!"case={cid} key=C06/value-after-kill key {kh.take 40} never written reads {obs.take 60}"
             ok rep
+    | ["life2", n] =>
+        -- engine crash, second process life: the kill really happened at crash state n; the store now is what the
+        -- model says recovery made of it, the reference map is its content, and of the acknowledged writes only
+        -- those that were completely on disk still exist
+        match st.snaps.find? (fun p => p.1 == n.toNat!) with
+        | none => diff rep ln "driver" s!"life2 of unknown snapshot {n}"
+        | some (_, sn) =>
+            let b := sn.recovered
+            let keys := (st.writes.map (·.1)).eraseDups
+            let sp : Spec.KV := keys.foldl (fun m k => match AMap.get b.tree (hash k) with
+              | some it => match b.readAt it.pos with
+                | some r => AMap.set m k { ver := it.ver, flag := r.flag, body := r.body, ts := r.ts }
+                | none => m
+              | none => m) []
+            let dv : List (Spec.Key × Int) := keys.foldl (fun m k => match AMap.get sp k with
+              | some e => AMap.set m k e.ver
+              | none => m) []
+            st := { st with buckets := #[b], spec := sp, inexact := [], dataVer := dv, writes := sn.durable, gcSpec := none, lastFiles := "" }
     | ["clist", n, pfx] =>
         match st.snaps.find? (fun p => p.1 == n.toNat!) with
         | none => diff rep ln "driver" s!"clist of unknown snapshot {n}"
